@@ -10,8 +10,8 @@ spec:      spec/PkgRelation.tla        structures (conjunction of alternatives o
 model checking (closed): one focus atom ranging over ALL 3612 combinations of the optional parts
            (2 x {none, 5 operators} x arch lists of 1..2 plain/negated entries x formulas of 1..2
            groups of 1..2 plain/negated terms) at every position of every list shape (quick: 1..2
-           conjuncts x 1..2 alternatives, context atom with every part, 54 171 structures; thorough:
-           1..3 x 1..2, context atoms bare / with every part, 362 k structures); in every state
+           conjuncts x 1..2 alternatives, context atoms bare names, 54 171 structures; thorough:
+           1..3 x 1..2, context atoms bare / with every part, 368 350 structures); in every state
            Inverse, NoWarning, Stable, TokensWellFormed.
            Spec-level negative controls, re-run in every check (each must make TLC report the named
            invariant): RestrictionsFirst -> NoWarning and Stable, IgnoreNegation -> Inverse,
@@ -24,19 +24,23 @@ binding:   (a) every CASE line of TLC (the structure and its expected token stri
                x 3 terms) go through the real str / parse_relations / str; the event logs the
                structure, the produced strings as token codes (independent tokenizer below) and the
                parsed-back structure; TLC (TracePkgRelation) must explain the parse with Parse and
-               find Inverse / NoWarning / Stable.
+               find Inverse / NoWarning / Stable.  Stdlib random seeded from VERIF_SEED is used
+               instead of hypothesis (one generator, deterministic per seed).
 verdict observables: parse_relations(str(r)) == r (TLC: Inverse), no warning (NoWarning), second
            string == first string (Stable); any exception.
 diagnostic (drift, never an alarm): the produced string differs from the token string predicted by
            Format (blank details of the formatter), namedtuple types of the parsed entries, the
-           same strings read through Packages(...).relations / Sources(...).relations.
+           same strings read through Packages(...).relations / Sources(...).relations, and "probe"
+           traces: parse_relations on formatter output whose blanks were changed at random (and
+           sometimes a token dropped) must be predicted by Parse -- this measures that the automaton
+           has the blank tolerance of the real regexes, so that a formatter which writes other
+           blanks is judged by what the parser really does with them.
 unspecified (executed, any outcome accepted): upper-case profile names (the parser lower-cases
            them, DESIGN D3), empty arch / restriction lists, version tuples with None.
 """
 import copy
 import json
 import os
-import random
 import re
 import shutil
 import warnings
@@ -47,15 +51,18 @@ import core
 
 MANIFEST = dict(
     technique="TLA+ spec PkgRelation (formatter as token sequence, the dependency regex as an automaton over token kinds with its optional groups in fixed order, the comma/pipe/blank/restriction splitters) model-checked by TLC over the closed space of all optional-part combinations x list shapes; every TLC case replayed into PkgRelation.str/parse_relations with concretized payloads; recorded executions on deeper random structures validated by TLC (TracePkgRelation)",
-    text="TLC enumerates every relation made of one focus atom -- all 3612 combinations of architecture qualifier, version constraint with each of the five operators, architecture lists of 1-2 plain or negated entries and restriction formulas of 1-2 groups of 1-2 plain or negated terms -- at every position of every list shape up to 3 conjuncts of 2 alternatives, surrounded by context atoms, and checks in each state Parse(Format(r)) = r, that the parser's warning fallback is never taken and Format(Parse(Format(r))) = Format(r); Parse is the one big regex written as an automaton over token kinds (name, qualifier, operator, version, arch, '!', profile, brackets, separators, blanks) with exactly the blank tolerance of the code. Each enumerated structure carries TLC's expected token string and is replayed into the real PkgRelation.str / parse_relations with package names over [a-z0-9+.-], versions with epoch, '~', '+' and hyphenated revisions, real architecture names, qualifiers and lower-case profile names: the parse must equal the structure exactly, without a warning, and formatting again must give the same string. In the other direction random deeper structures (5x4 atoms, 3 arch entries, 3x3 restriction terms) are formatted and parsed by the real code, the strings are tokenized independently and TLC must explain the parsed-back structure with Parse and find it equal to the input.",
-    note="Characters inside a payload token are sampled, not enumerated; profile names are lower case (DESIGN D3: the parser lower-cases them). The exact blanks written by the formatter are diagnostic only (drift). Trusted: TLC, the concretizer, the small context-sensitive tokenizer used for the recorded strings (a wrong tokenization is rejected by TLC, never accepted). Four spec-level negative controls and corrupted control traces are required to fail in every run.",
+    text="TLC enumerates every relation made of one focus atom -- all 3612 combinations of architecture qualifier, version constraint with each of the five operators, architecture lists of 1-2 plain or negated entries and restriction formulas of 1-2 groups of 1-2 plain or negated terms -- at every position of every list shape up to 3 conjuncts of 2 alternatives, surrounded by context atoms, and checks in each state Parse(Format(r)) = r, that the parser's warning fallback is never taken and Format(Parse(Format(r))) = Format(r); Parse is the one big regex written as an automaton over token kinds (name, qualifier, operator, version, arch, '!', profile, brackets, separators, blanks) with exactly the blank tolerance of the code. Each enumerated structure carries TLC's expected token string and is replayed into the real PkgRelation.str / parse_relations with package names over [a-z0-9+.-], versions with epoch, '~', '+' and hyphenated revisions, real architecture names, qualifiers and lower-case profile names: the parse must equal the structure exactly, without a warning, and formatting again must give the same string. In the other direction random deeper structures (5x4 atoms, 3 arch entries, 3x3 restriction terms) are formatted and parsed by the real code, the strings are tokenized independently and TLC must explain the parsed-back structure with Parse and find it equal to the input. The quick tier enumerates lists of up to 2 conjuncts of 2 alternatives with bare-name context atoms (54 171 structures), the thorough tier up to 3 x 2 with bare and fully-equipped context atoms (368 350 structures).",
+    note="Characters inside a payload token are sampled, not enumerated; profile names are lower case (DESIGN D3: the parser lower-cases them). The exact blanks written by the formatter are diagnostic only (drift). Trusted: TLC, the concretizer, the small context-sensitive tokenizer used for the recorded strings (a wrong tokenization is rejected by TLC, never accepted). A diagnostic leg (never an alarm) feeds strings with randomly changed blanks to the real parser and lets TLC predict the outcome, warning path included. Four spec-level negative controls and eight corrupted control traces are required to fail in every run.",
     design="5 (C13)")
 
 OPS = ["<<", "<=", "=", ">=", ">>"]
 KINDS = ["name", "colon", "qual", "lpar", "op", "ver", "rpar", "lbr", "bang", "arch", "rbr", "lt", "prof", "gt",
          "comma", "pipe", "sp", "x"]
 KNO = {k: i + 1 for i, k in enumerate(KINDS)}
-BAD = 999
+BAD = 999          # token code of the id Bad
+BAD_ID = -1        # Bad in structures
+_WORD = re.compile(r"[A-Za-z0-9.+~_-]+")
+_VERWORD = re.compile(r"[A-Za-z0-9.+~:_-]+")
 FIXED_TEXT = {"colon": ":", "lpar": "(", "rpar": ")", "lbr": "[", "rbr": "]", "lt": "<", "gt": ">", "bang": "!",
               "comma": ",", "pipe": "|", "sp": " "}
 PAYLOAD_KINDS = ("name", "qual", "ver", "arch", "prof")
@@ -145,7 +152,11 @@ class Conc:
         return self.text
 
     def intern(self, kind, s):
-        """id of a payload string; a string the table does not have gets a fresh id (recorded traces)"""
+        """id of a payload string; a string the table does not have gets a fresh id (recorded traces);
+        text that is not ONE word of the field syntax (the raw text the fallback path returns as a
+        name, an empty architecture name, ...) is Bad, as in the specification"""
+        if not (_VERWORD if kind == "ver" else _WORD).fullmatch(s):
+            return BAD_ID
         i = self.rev[kind].get(s)
         if i is None:
             self.text[kind].append(s)
@@ -275,7 +286,9 @@ def tokens_to_text(codes, conc):
         if k in FIXED_TEXT:
             out.append(FIXED_TEXT[k])
         elif k == "op":
-            out.append(OPS[i - 1])
+            out.append(OPS[i - 1] if 1 <= i <= len(OPS) else "?")
+        elif k == "x" or i == BAD:
+            out.append("?")
         else:
             out.append(conc.text[k][i])
     return "".join(out)
@@ -285,8 +298,6 @@ def tokens_to_text(codes, conc):
 # Written from the field syntax of Debian Policy 7.1 / BuildProfileSpec, not from the regexes of the
 # code: name[:qualifier] (op version) [!arch ...] <!profile ...> ..., separated by ',' and '|'.
 # The class of a word is decided by the bracket it stands in.
-_WORD = re.compile(r"[A-Za-z0-9.+~_-]+")
-_VERWORD = re.compile(r"[A-Za-z0-9.+~:_-]+")
 _OPRUN = re.compile(r"[<>=]+")
 _BLANK = re.compile(r"\s+")
 
@@ -299,7 +310,7 @@ def tokenize(s, conc):
     after_colon = False
 
     def emit(kind, ident=0):
-        out.append(KNO[kind] * 1000 + ident)
+        out.append(KNO[kind] * 1000 + (BAD if ident == BAD_ID else ident))
     while i < n:
         c = s[i]
         m = _BLANK.match(s, i)
@@ -308,8 +319,13 @@ def tokenize(s, conc):
             after_colon = False
             i = m.end()
             continue
+        if c in ",|":                # separators of the field at any depth: they end an unclosed bracket
+            emit("comma" if c == "," else "pipe")
+            mode, after_colon = "top", False
+            i += 1
+            continue
         if mode == "top":
-            single = {",": "comma", "|": "pipe", ":": "colon", "(": "lpar", "[": "lbr", "<": "lt"}.get(c)
+            single = {":": "colon", "(": "lpar", "[": "lbr", "<": "lt"}.get(c)
             if single:
                 emit(single)
                 mode = {"(": "par", "[": "br", "<": "ang"}.get(c, "top")
@@ -466,17 +482,47 @@ def cfg_constants(name):
     return out
 
 
-def stream_cases(path):
-    """yield (json value, crc of the text) for the <<"CASE", "json">> lines of a raw TLC output file"""
+def _case_of(line):
+    line = line.rstrip("\n")
+    if not line.endswith('">>'):
+        raise core.MachineryError("truncated TLC output line: %r" % line[:120])
+    body = line[11:-3].replace('\\"', '"')
+    return json.loads(body), zlib.crc32(body.encode())
+
+
+def follow_cases(workdir, running):
+    """yield (json value, crc of the text) for the <<"CASE", "json">> lines of the raw output of the TLC
+    run whose scratch directory is `workdir`, WHILE TLC is still writing it (`running()` tells whether
+    it is); only complete lines are consumed"""
+    import glob
+    import time
+    path = None
+    while path is None:
+        found = glob.glob(os.path.join(workdir, "tlc-*", "out.txt"))
+        if found:
+            path = found[0]
+        elif not running():
+            return
+        else:
+            time.sleep(0.05)
     with open(path, errors="replace") as f:
-        for line in f:
-            if not line.startswith('<<"CASE", "'):
+        pending = ""
+        while True:
+            alive = running()
+            chunk = f.readline()
+            if chunk:
+                pending += chunk
+                if not pending.endswith("\n"):
+                    continue
+                line, pending = pending, ""
+                if line.startswith('<<"CASE", "'):
+                    yield _case_of(line)
                 continue
-            line = line.rstrip("\n")
-            if not line.endswith('">>'):
-                raise core.MachineryError("truncated TLC output line: %r" % line[:120])
-            body = line[11:-3].replace('\\"', '"')
-            yield json.loads(body), zlib.crc32(body.encode())
+            if not alive:
+                if pending.startswith('<<"CASE", "'):
+                    raise core.MachineryError("truncated TLC output line: %r" % pending[:120])
+                return
+            time.sleep(0.05)
 
 
 def spec_negative_controls(ctx):
@@ -504,18 +550,24 @@ def parts_key(a):
     return "".join(ch for ch, on in (("q", a["q"]), ("v", a["v"]["some"]), ("a", a["a"]["some"]), ("r", a["r"]["some"])) if on) or "-"
 
 
-def replay_cases(ctx, raw_path, quick):
+def replay_cases(ctx, cases, quick):
+    # pre-drawn concretizations (seeded), selected per case by a hash of the case: TLC's output order
+    # depends on thread timing, what is done with a case must not
+    full = {"name": 8, "qual": 8, "ver": 8, "arch": 4, "prof": 6}
+    canon = Conc.draw(ctx.rng, full, canonical=True)
+    pool = [Conc.draw(ctx.rng, full) for _ in range(256)]
     ncase = nrun = 0
     per_shape, per_parts, per_op = {}, {}, {}
     diag = {}
     failing = []            # (crc, case dict, message): the smallest keys are reported (TLC's output order varies)
     samples = {}
     nfail = 0
-    for v, h in stream_cases(raw_path):
+    for v, h in cases:
         ncase += 1
         rel_abs = case_to_abstract(v["r"])
         need = need_of(rel_abs)
-        rng = random.Random((h << 8) ^ ctx.seed)
+        if any(need[k] > full[k] for k in need):
+            raise core.MachineryError("CASE needs more payload ids than the pre-drawn tables have: %r" % (need,))
         sk = shape_key(rel_abs)
         per_shape[sk] = per_shape.get(sk, 0) + 1
         nontrivial = False
@@ -528,28 +580,31 @@ def replay_cases(ctx, raw_path, quick):
             per_parts[pk] = per_parts.get(pk, 0) + 1
         for op in {a["v"]["op"] for alts in rel_abs for a in alts if a["v"]["some"]}:
             per_op[OPS[op - 1]] = per_op.get(OPS[op - 1], 0) + 1
-        # quick: one concretization per case (canonical for a quarter of the cases); thorough: canonical + random
+        # quick: one concretization per case (canonical for a quarter of the cases);
+        # thorough: a random one for every case, the canonical one first for a quarter of them
         if quick:
             plans = [h % 4 == 0]
         else:
-            plans = [True, False]
+            plans = [True, False] if h % 4 == 0 else [False]
         for canonical in plans:
-            conc = Conc.draw(rng, need, canonical=canonical)
+            conc = canon if canonical else pool[(h ^ ctx.seed * 40503) % len(pool)]
             msg, s, r_py = check_case(ctx, rel_abs, v["t"], conc, diag)
             nrun += 1
             if msg:
                 nfail += 1
-                if len(failing) < 400 or h < failing[-1][0]:
-                    failing.append((h, {"kind": "case", "abstract": rel_abs, "tokens": v["t"], "conc": conc.to_json(),
-                                        "string": s}, msg))
+                # report the smallest failing structures (canonical payload first)
+                key = (sum(len(x) for x in rel_abs), len(v["t"]), not canonical, h)
+                if len(failing) < 50 or key < failing[-1][0]:
+                    failing.append((key, {"kind": "case", "abstract": rel_abs, "tokens": v["t"], "conc": conc.to_json(),
+                                          "string": s}, msg))
                     failing.sort(key=lambda x: x[0])
-                    del failing[400:]
+                    del failing[50:]
                 break
         ctx.case_seen(("case", h), nontrivial)
         if h % 97 == 0 and msg is None:
             deb822_path(ctx, s, r_py)
             diag["deb822_path"] = diag.get("deb822_path", 0) + 1
-        if h % 4093 < 2 and msg is None and sum(len(x) for x in rel_abs) >= 2 and not plans[-1]:
+        if h % 1021 < 2 and msg is None and 2 <= sum(len(x) for x in rel_abs) <= 3 and not plans[-1]:
             samples[h] = "CASE %s: %s -> %r parses back to the structure, no warning, same string again" % (
                 sk, json.dumps(v["r"], separators=(",", ":")), s)
     for _, case, msg in failing[:ctx.max_violation_files]:
@@ -571,7 +626,7 @@ def replay_cases(ctx, raw_path, quick):
 def unspecified_zone(ctx):
     """executed, any outcome accepted; recorded in the evidence"""
     from debian.deb822 import PkgRelation
-    A, B = PkgRelation.ArchRestriction, PkgRelation.BuildRestriction
+    B = PkgRelation.BuildRestriction
 
     def atom(**kw):
         d = {"name": "foo", "archqual": None, "version": None, "arch": None, "restrictions": None}
@@ -647,7 +702,7 @@ def record(r_py):
         except Malformed as e:
             exc = "MalformedResult"
             o["exc"] = "parse_relations returned a value of the wrong shape (%s)" % e
-    trace = {"r": r_abs,
+    trace = {"kind": "rt", "r": r_abs,
              "t": tokenize(o["s"], conc) if o["s"] is not None else [],
              "p": p_abs,
              "warn": bool(o["warn"]),
@@ -659,13 +714,64 @@ def record(r_py):
     return trace, meta
 
 
+def perturb(rng, codes, conc):
+    """formatter output with other blanks between the tokens (and, rarely, one token missing): input
+    generation for the probe traces"""
+    codes = list(codes)
+    if rng.random() < 0.08:
+        # not '<': the greedy <.+> would then swallow words that were tokenized as top-level names,
+        # which the token abstraction cannot express
+        cand = [j for j, c in enumerate(codes) if KINDS[c // 1000 - 1] not in ("sp", "lt")]
+        del codes[rng.choice(cand)]
+    kinds = [KINDS[c // 1000 - 1] for c in codes] + ["end"]
+    wordy = set(PAYLOAD_KINDS) | {"bang", "op"}
+    out = []
+    for j, c in enumerate(codes):
+        k = kinds[j]
+        if k == "sp":
+            tight = not (kinds[j - 1] in wordy and kinds[j + 1] in wordy)
+            out.append(rng.choice(("", " ", " ", "  ", "\t", " ") if tight else (" ", "  ", "\t")))
+        else:
+            out.append(tokens_to_text([c], conc))
+            if rng.random() < 0.12 and k != "bang" and not (k in wordy and kinds[j + 1] in wordy):
+                out.append(rng.choice((" ", "  ")))
+    s = "".join(out)
+    if rng.random() < 0.2:
+        s = rng.choice((" ", "\t")) + s
+    if rng.random() < 0.2:
+        s = s + rng.choice((" ", "\n"))
+    return s
+
+
+def record_probe(rng, r_py):
+    """diagnostic trace: parse_relations on a string that is not formatter output"""
+    from debian.deb822 import PkgRelation
+    conc = empty_conc()
+    s = perturb(rng, tokenize(PkgRelation.str(r_py), conc), conc)
+    conc = empty_conc()
+    exc, p_abs, p = "", [], None
+    with warnings.catch_warnings(record=True) as w:
+        warnings.simplefilter("always")
+        try:
+            p = PkgRelation.parse_relations(s)
+            p_abs = abstract(p, conc)
+        except Malformed:
+            exc = "MalformedResult"
+        except Exception as e:       # noqa: BLE001 -- observation
+            exc = type(e).__name__
+    trace = {"kind": "probe", "r": [], "t": tokenize(s, conc), "p": p_abs, "warn": bool(w), "exc": exc, "t2": [], "same": True}
+    meta = {"kind": "probe", "string": s, "observed": {"parsed": repr(p), "warnings": [str(x.message) for x in w],
+                                                       "exception": exc, "second_string": None}}
+    return trace, meta
+
+
 def control_traces(traces):
     """corrupted copies the trace specification must reject"""
     out = []
 
     def first(pred):
         for t in traces:
-            if not t["exc"] and not t["warn"] and t["same"] and pred(t):
+            if t["kind"] == "rt" and not t["exc"] and not t["warn"] and t["same"] and pred(t):
                 return copy.deepcopy(t)
         return None
     t = first(lambda t: any(a["a"]["some"] for alts in t["r"] for a in alts))
@@ -702,6 +808,10 @@ def control_traces(traces):
     if t:                                           # an exception was raised
         t["exc"] = "TypeError"
         out.append(t)
+    for t in traces:
+        if t["kind"] == "probe" and not t["exc"]:   # a probe whose warning flag is wrong
+            out.append(dict(copy.deepcopy(t), warn=not t["warn"]))
+            break
     return out
 
 
@@ -709,16 +819,23 @@ STEP = {0: "the string (diagnostic step)", 1: "Parse does not explain what parse
         2: "Inverse / NoWarning", 3: "Stable"}
 
 
+BATCH = 4000     # traces per TLC invocation (JsonDeserialize holds the whole file in memory)
+
+
 def validate(ctx, traces, with_controls=True, workers=2):
     controls = control_traces(traces) if with_controls else []
     if with_controls and len(controls) < 5:
         raise core.MachineryError("only %d control traces could be built" % len(controls))
-    acc, _, r = core.validate_traces(ctx, "TracePkgRelation", "TracePkgRelation.cfg", traces, workers=workers,
-                                     extra_env={"TRACE_DIAG": "0"}, controls=controls,
-                                     java_opts=["-XX:ParallelGCThreads=2"])
-    fmt_drift = sorted({v[0] for v in r.printed.get("REJECT", []) if isinstance(v, list) and v[0] <= len(traces)})
-    rejected = [i for i in range(1, len(traces) + 1) if i not in acc]
-    info = {}
+    rejected, fmt_drift, info = [], [], {}
+    for lo in range(0, len(traces), BATCH):
+        part = traces[lo:lo + BATCH]
+        acc, _, r = core.validate_traces(ctx, "TracePkgRelation", "TracePkgRelation.cfg", part, workers=workers,
+                                         extra_env={"TRACE_DIAG": "0"}, controls=controls if lo == 0 else (),
+                                         java_opts=["-XX:ParallelGCThreads=2"])
+        fmt_drift += sorted({lo + v[0] for v in r.printed.get("REJECT", []) if isinstance(v, list) and v[0] <= len(part)})
+        rejected += [lo + i for i in range(1, len(part) + 1) if i not in acc]
+    # the shortest rejected round trips first
+    rejected.sort(key=lambda i: (traces[i - 1]["kind"] != "rt", len(traces[i - 1]["t"]), i))
     if rejected:
         sub = [traces[i - 1] for i in rejected[:20]]
         _, prog, _ = core.validate_traces(ctx, "TracePkgRelation", "TracePkgRelation.cfg", sub,
@@ -737,34 +854,55 @@ def explain(meta, at):
         o["second_string"])
 
 
-def make_traces(ctx, n):
+def make_traces(ctx, n, nprobe):
     traces, metas = [], []
     for _ in range(n):
         tr, meta = record(random_structure(ctx.rng))
+        traces.append(tr)
+        metas.append(meta)
+    for _ in range(nprobe):
+        try:
+            tr, meta = record_probe(ctx.rng, random_structure(ctx.rng))
+        except Exception:            # noqa: BLE001 -- diagnostic leg only (e.g. the formatter raised)
+            ctx.extra["probes_skipped"] = ctx.extra.get("probes_skipped", 0) + 1
+            continue
         traces.append(tr)
         metas.append(meta)
     return traces, metas
 
 
 def judge_traces(ctx, traces, metas, rejected, info, fmt_drift):
-    ctx.traces += len(traces)
+    rt = [i for i, t in enumerate(traces) if t["kind"] == "rt"]
+    nprobe = len(traces) - len(rt)
+    ctx.traces += len(rt)
     ctx.evaluations += len(traces)
     for i in range(len(traces)):
         ctx.distinct.add(("trace", i))
     natoms = [sum(len(a) for a in t["r"]) for t in traces]
-    ctx.extra["traces_recorded"] = len(traces)
-    ctx.extra["traces_rejected"] = len(rejected)
+    bad_rt = [i for i in rejected if traces[i - 1]["kind"] == "rt"]
+    bad_probe = [i for i in rejected if traces[i - 1]["kind"] == "probe"]
+    ctx.extra["traces_recorded"] = len(rt)
+    ctx.extra["traces_rejected"] = len(bad_rt)
     ctx.extra["trace_atoms"] = {"total": sum(natoms), "max": max(natoms)}
-    ctx.extra["trace_tokens"] = sum(len(t["t"]) for t in traces)
+    ctx.extra["trace_tokens"] = sum(len(traces[i]["t"]) for i in rt)
     ctx.extra["traces_with_format_drift"] = len(fmt_drift)
+    ctx.extra["parser_model_probe"] = {
+        "strings_with_perturbed_blanks": nprobe, "not_predicted_by_Parse": len(bad_probe),
+        "warning_path_taken": sum(1 for t in traces if t["kind"] == "probe" and t["warn"]),
+        "exceptions": sum(1 for t in traces if t["kind"] == "probe" and t["exc"])}
     for i in fmt_drift[:3]:
         ctx.drift("recorded string %r is not the token string Format predicts (blank details are not part of the property)"
                   % metas[i - 1]["string"])
-    ex = next((i for i, t in enumerate(traces) if 3 <= natoms[i] <= 5 and any(a["r"]["some"] for al in t["r"] for a in al)), None)
+    for i in bad_probe[:3]:
+        o = metas[i - 1]["observed"]
+        ctx.drift(("probe (diagnostic): Parse does not predict parse_relations(%r) = %s%s%s" % (
+            metas[i - 1]["string"], o["parsed"], " with a warning" if o["warnings"] else "",
+            (" raised " + o["exception"]) if o["exception"] else ""))[:700])
+    ex = next((i for i in rt if 3 <= natoms[i] <= 5 and any(a["r"]["some"] for al in traces[i]["r"] for a in al)), None)
     if ex is not None:
         ctx.sample("recorded: str(r) = %r -> tokens %s...; parse_relations gives r back (%d atoms)" % (
             metas[ex]["string"], traces[ex]["t"][:12], natoms[ex]))
-    for i in rejected[:5]:
+    for i in bad_rt[:5]:
         ctx.violation(dict(metas[i - 1], trace=traces[i - 1]),
                       "recorded execution not explained by PkgRelation: " + explain(metas[i - 1], info.get(i, 0)))
 
@@ -783,23 +921,25 @@ def run(ctx):
         "the exact blanks written by the formatter are diagnostic (drift), not part of the property",
         "trusted: TLC, the concretizer, the tokenizer of the recorded strings (written from the field syntax, not from the code's regexes)",
     ]
+    mc_dir = os.path.join(ctx.work, "mc")
+    os.makedirs(mc_dir)
     with ThreadPoolExecutor(max_workers=3) as pool:
         # 1. design level + emission (closed): all structures of the space, in the background (the
         #    bookkeeping of ctx.tlc is done below, in this thread)
-        f_mc = pool.submit(core.run_tlc, "PkgRelation", cfg, ctx.work, workers=8, keep_raw=True, want_tags=set(),
+        f_mc = pool.submit(core.run_tlc, "PkgRelation", cfg, mc_dir, workers=8, keep_raw=True, want_tags=set(),
                            timeout=900 if quick else 7200, java_opts=["-XX:ParallelGCThreads=4"])
         # 2. the invariants can fail
         f_neg = pool.submit(spec_negative_controls, ctx)
         # 3. code -> spec: recorded executions on deeper structures, validated by TLC
         unspecified_zone(ctx)
-        traces, metas = make_traces(ctx, 1500 if quick else 20000)
+        traces, metas = make_traces(ctx, *((1500, 400) if quick else (20000, 4000)))
         f_val = pool.submit(validate, ctx, traces, True, 2 if quick else 4)
+        # 4. spec -> code: every CASE line, replayed while TLC is still enumerating
+        ncase = replay_cases(ctx, follow_cases(mc_dir, lambda: not f_mc.done()), quick)
         r = f_mc.result()
+        shutil.rmtree(mc_dir, ignore_errors=True)
         if r.violated:
             raise core.MachineryError("specification PkgRelation violates %s\n%s" % (r.violated, r.tail))
-        # 4. spec -> code: every CASE line
-        ncase = replay_cases(ctx, r.raw_path, quick)
-        shutil.rmtree(os.path.dirname(r.raw_path), ignore_errors=True)
         if ncase != r.distinct:
             raise core.MachineryError("TLC found %d states but %d CASE lines were read" % (r.distinct, ncase))
         ctx.traces += ncase
